@@ -60,6 +60,25 @@ func (w *World) emit(sender *Node, to int, bcast bool, data []byte) {
 		w.sendByz(b, m)
 		return
 	}
+	if b.torsionFermat && m.Kind == "vec" && w.t >= 12 && !m.Inject {
+		p := w.c.Choose(w.t-11, "fermat.p")
+		q := p + 12
+		pl := append([]byte(nil), m.Data[1:]...)
+		if len(pl) == 96*(w.t+1) {
+			ep, e1 := curve.G2PlusMultiple(pl[96*p:96*p+96], 0, 1)
+			eq, e2 := curve.G2PlusMultiple(pl[96*q:96*q+96], 0, -1)
+			if e1 == nil && e2 == nil && curve.SmallPrimes[0] == 13 {
+				copy(pl[96*p:], ep)
+				copy(pl[96*q:], eq)
+				m.Data = append([]byte{tagVec}, pl...)
+				m.Poly, m.Well, m.Shape = "X", false, false
+				m.Label = fmt.Sprintf("byz:fermat-torsion-pair:A%d+T,A%d-T", p, q)
+				w.fault("byz.fermat_torsion_pair_vector")
+				w.sendByz(b, m)
+				return
+			}
+		}
+	}
 	if b.torsionFor >= 0 && m.Kind == "vec" && w.t >= 2 {
 		// torsion-cancelling attack: A_p + T and A_q + cT with x^p + c x^q = 0 mod ord(T) for the
 		// index x of ONE chosen participant: its public key share is unchanged, the vector is on
